@@ -196,3 +196,51 @@ def replay_bind(name):
     w.start_page("T")
     got = w.expand("{{t|" + name + "=V}}")
     return (f"template body {'[{{{' + name + '}}}]'!r}: expand({'{{t|' + name + '=V}}'!r})", got != "[V]", f"result {got!r}, expected '[V]'")
+
+
+# ---------------------------------------------------------------- later duplicates win; positional numbering
+def ref_bind(skel: str, names, values) -> dict:
+    """MediaWiki: arguments are bound left to right; a named argument's key is the trimmed name (a positive numeral is the
+    positional index), its value is trimmed; positional arguments are numbered 1, 2, ... independently of named ones and
+    keep their whitespace; a later argument with the same key replaces an earlier one."""
+    d, n, ni = {}, 0, 0
+    for i, k in enumerate(skel):
+        if k == "P":
+            n += 1
+            d[n] = values[i]
+        else:
+            nm = names[ni]
+            ni += 1
+            key = (1 if nm == "1" else 2) if nm in ("1", "2") else nm
+            d[key] = values[i].strip()
+    return d
+
+
+def dup_binding_ok(skel: str, names, values) -> bool:
+    args, ni = [], 0
+    for i, k in enumerate(skel):
+        if k == "P":
+            args.append(values[i])
+        else:
+            args.append(names[ni] + "=" + values[i])
+            ni += 1
+    ht = _V.V2(_V._Self(), ("t",) + tuple(args), None, lambda x, p, e: x)
+    return dict(ht) == ref_bind(skel, names, values)
+
+
+def replay_dup_binding(skel, names, values):
+    args, ni = [], 0
+    for i, k in enumerate(skel):
+        if k == "P":
+            args.append(values[i])
+        else:
+            args.append(names[ni] + "=" + values[i])
+            ni += 1
+    w = Wtp(quiet=True, quiet_output=True)
+    w.add_page("Template:t", 10, "<{{{a|-}}}|{{{b|-}}}|{{{1|-}}}|{{{2|-}}}|{{{3|-}}}>")
+    w.start_page("T")
+    doc = "{{t|" + "|".join(args) + "}}"
+    got = w.expand(doc)
+    d = ref_bind(skel, names, values)
+    want = "<" + "|".join(str(d.get(k, "-")) for k in ("a", "b", 1, 2, 3)) + ">"
+    return (f"template body '<{{{{{{a|-}}}}}}|{{{{{{b|-}}}}}}|{{{{{{1|-}}}}}}|{{{{{{2|-}}}}}}|{{{{{{3|-}}}}}}>': expand({doc!r})", got != want, f"result {got!r}, the binding rule (later duplicates win, positional numbering) gives {want!r}")
